@@ -207,7 +207,7 @@ def cmd_seeded(a):
     import threading
     ids = sorted(d for d in os.listdir(os.path.join(VERIF, "seeded")) if os.path.isfile(os.path.join(VERIF, "seeded", d, "patch.diff")))
     if a.only:
-        ids = [i for i in ids if i in a.only.split(",")]
+        ids = [i for i in ids if i in a.only.split(",")]      # "--only none" just regenerates MATRIX.md from the stored results
     checks = ["C%02d" % i for i in range(1, 21)]
     workers = [setup_worker(k, a.base) for k in range(a.workers)]
     q = queue.Queue()
@@ -246,11 +246,16 @@ def cmd_seeded(a):
     lines = ["# Seeded changes x checks (quick tier, seed 0)", "",
              "`X` = the check reports a violation with a failing input; `x` = only through a broken obligation / correspondence (`no-failing-input-found`).", "",
              "| seeded change | own | " + " | ".join(c[1:] for c in checks) + " |", "|---|---|" + "---|" * len(checks)]
-    for sid in ids:
+    all_ids = sorted(d for d in os.listdir(os.path.join(VERIF, "seeded")) if os.path.isfile(os.path.join(VERIF, "seeded", d, "result.json")))
+    for sid in all_ids:
         r = results.get(sid) or json.load(open(os.path.join(VERIF, "seeded", sid, "result.json")))
         own = sid[:3]
+        try:
+            own = json.load(open(os.path.join(VERIF, "seeded", sid, "meta.json"))).get("violates", own)
+        except Exception:  # noqa
+            pass
         cells = [("x" if r["flagged"][c]["no_input"] else "X") if c in r["flagged"] else ("!" if c in r["infra"] else "") for c in checks]
-        lines.append("| %s | %s | %s |" % (sid, "caught" if own in r["flagged"] else ("patch does not apply" if not r["applies"] else "**MISSED**"), " | ".join(cells)))
+        lines.append("| %s | %s | %s |" % (sid, ("caught" if own == sid[:3] else "caught by %s (see meta.json)" % own) if own in r["flagged"] else ("patch does not apply" if not r["applies"] else "**MISSED**"), " | ".join(cells)))
     open(os.path.join(VERIF, "seeded", "MATRIX.md"), "w").write("\n".join(lines) + "\n")
     if a.cleanup:
         for k in range(a.workers):
